@@ -33,6 +33,8 @@ FileTable == { [proto |-> "lib",       mod |-> "lib"],
                [proto |-> "res_types", mod |-> "res_types"] }
 SvcTable == { [camel |-> "Library",   snake |-> "library"],
               [camel |-> "BookAdmin", snake |-> "book_admin"] }
+\* a service whose name contains the words the per-template gates look for (transport, base; its files are gated like anyone's)
+GateNamed == [camel |-> "TransportDatabase", snake |-> "transport_database"]
 MethodKinds == {"unary", "paged", "lro", "sstream", "cstream", "bidi", "void"}
 
 \* namespace / name / version of the proto package
@@ -71,6 +73,7 @@ Twin1 == [proto |-> "lib.admin", mod |-> "lib_admin"]
 Twin2 == [proto |-> "lib_admin", mod |-> "lib_admin"]
 FilesChoices ==
   CASE Scope = "twins"   -> {<<Twin1, Twin2>>, <<Twin2, Twin1>>}
+    [] Scope = "names"   -> {<<[proto |-> "lib", mod |-> "lib"]>>}
     [] Scope = "subpkg"  -> {<<[proto |-> "lib", mod |-> "lib"]>>, <<[proto |-> "lib", mod |-> "lib"], [proto |-> "lib.admin", mod |-> "lib_admin"]>>}
     [] Scope = "ads"     -> {<<[proto |-> "lib", mod |-> "lib"]>>, <<[proto |-> "lib", mod |-> "lib"], [proto |-> "lib.admin", mod |-> "lib_admin"]>>}
     \* pairs in both orders: the FIRST file holds the shared messages, the last one the services - with the special file first,
@@ -80,13 +83,15 @@ FilesChoices ==
     [] OTHER             -> {<<[proto |-> "lib", mod |-> "lib"]>>, <<[proto |-> "lib", mod |-> "lib"], [proto |-> "import", mod |-> "import_"]>>,
                              <<[proto |-> "import", mod |-> "import_"], [proto |-> "lib", mod |-> "lib"]>>}
 SvcChoices ==
-  CASE Scope = "shapes"  -> {<<>>} \cup Singles(SvcTable) \cup Pairs(SvcTable)
+  CASE Scope = "names"   -> {<<GateNamed>>, <<[camel |-> "Library", snake |-> "library"]>>, <<[camel |-> "Library", snake |-> "library"], GateNamed>>}
+    [] Scope = "shapes"  -> {<<>>} \cup Singles(SvcTable) \cup Pairs(SvcTable)
     [] Scope = "options" -> Singles({[camel |-> "Library", snake |-> "library"]})
     [] OTHER             -> Singles({[camel |-> "Library", snake |-> "library"]})
                             \cup {<<[camel |-> "Library", snake |-> "library"], [camel |-> "BookAdmin", snake |-> "book_admin"]>>,
                                   <<[camel |-> "BookAdmin", snake |-> "book_admin"], [camel |-> "Library", snake |-> "library"]>>}
 KindChoices ==
   CASE Scope = "subpkg"  -> {<<"unary">>, <<"paged", "lro">>}
+    [] Scope = "names"   -> {<<"unary">>, <<"unary", "paged">>}
     [] Scope = "ads"     -> {<<"unary">>, <<"unary", "paged">>}
     [] Scope = "shapes"  -> Singles(MethodKinds) \cup {<<"unary", k>> : k \in MethodKinds \ {"unary"}}
     [] Scope = "options" -> {<<"unary", "paged">>}
@@ -100,7 +105,8 @@ PkgChoices ==
     [] OTHER             -> {<<<<"acme">>, "lib", "v1">>, <<<<>>, "lib", "">>}
 AdsItems == <<"python-gapic-templates=ads-templates", "old-naming">>
 OptChoices ==
-  CASE Scope = "ads"     -> {AdsItems, <<"transport=grpc+rest">> \o AdsItems, <<"transport=rest", "metadata">> \o AdsItems,
+  CASE Scope = "names"   -> {<<>>, <<"transport=rest">>, <<"transport=grpc+rest", "metadata">>}
+    [] Scope = "ads"     -> {AdsItems, <<"transport=grpc+rest">> \o AdsItems, <<"transport=rest", "metadata">> \o AdsItems,
                              AdsItems \o <<"foo=bar">>}
     [] Scope = "shapes"  -> {<<"transport=grpc">>, <<"transport=rest", "metadata">>, <<"transport=grpc+rest", "metadata">>,
                              <<"autogen-snippets=false">>}
@@ -114,6 +120,9 @@ ExtraChoices ==
   CASE Scope = "shapes"  -> {"none", "kw", "internal"}
     [] Scope \in {"options", "twins", "ads"} -> {"none"}
     [] Scope = "subpkg"  -> {"subpkg"}
+    \* "nounv": the service YAML switches the unversioned convenience package off
+    \* (python_settings.experimental_features.unversioned_package_disabled) - everything else is emitted as usual
+    [] Scope = "names"   -> {"none", "nounv"}
     [] OTHER             -> {"none", "kw", "internal", "reserved", "xreq", "sibdep"}
 \* "subpkg": one more TARGET file in the proto sub-package <package>.admin (admin/adm.proto, message AdminThing, used by a root
 \* message, hence listed BEFORE the root files in the request): its types module lives under <root>/admin/types/
@@ -200,7 +209,8 @@ ServiceFiles(s) ==
      \cup (IF HasPaged THEN {b \o <<"pagers.py">>} ELSE {})
 
 FamilyFiles(f) ==
-  CASE f = "unversioned"   -> IF opts.ads THEN {URoot \o <<"py.typed">>} \cup (IF naming.version = "" THEN {} ELSE {URoot \o <<"__init__.py">>})
+  CASE f = "unversioned" /\ req.extra = "nounv" -> {}
+    [] f = "unversioned"   -> IF opts.ads THEN {URoot \o <<"py.typed">>} \cup (IF naming.version = "" THEN {} ELSE {URoot \o <<"__init__.py">>})
                               ELSE IF naming.version = "" THEN {} ELSE {URoot \o <<"__init__.py">>, URoot \o <<"gapic_version.py">>, URoot \o <<"py.typed">>}
     [] f = "root"          -> {Root \o <<"__init__.py">>, Root \o <<"gapic_version.py">>} \cup (IF opts.ads THEN {} ELSE {Root \o <<"py.typed">>})
                               \cup {Root \o subs[i].sub \o <<"__init__.py">> : i \in 1..Len(subs)}
